@@ -23,20 +23,25 @@ REPLAY = r"""
 import sys, os, json, subprocess, tempfile, atexit, shutil
 import cffi
 d = tempfile.mkdtemp(); atexit.register(shutil.rmtree, d, True)
-cdef, prelude, name = "int sq(int);\n", "static int sq(int x) { return x * x; }\n", "_c24_replay"
+cdef, prelude, name = "int sq(int);\n", "/* a\r\nb \r c */ static int sq(int x) { return x * x; }\n", "_c24_replay"
 open(os.path.join(d, 'a.cdef'), 'w', newline='').write(cdef); open(os.path.join(d, 'a.c'), 'w', newline='').write(prelude)
 open(os.path.join(d, 'b.py'), 'w').write("import cffi\nffibuilder = cffi.FFI()\nffibuilder.cdef(%r)\nffibuilder.set_source(%r, %r)\n" % (cdef, name, prelude))
-ffi = cffi.FFI(); ffi.cdef(cdef); ffi.set_source(name, prelude)
-ref = os.path.join(d, 'ref.c')
-with open(os.devnull, 'w') as null:
-    so = os.dup(1); os.dup2(null.fileno(), 1)
-    try: ffi.emit_c_code(ref)
-    finally: os.dup2(so, 1)
-want = open(ref, 'rb').read()
+def reference(prel, fname):
+    ffi = cffi.FFI(); ffi.cdef(cdef); ffi.set_source(name, prel)
+    ref = os.path.join(d, fname)
+    with open(os.devnull, 'w') as null:
+        so = os.dup(1); os.dup2(null.fileno(), 1)
+        try: ffi.emit_c_code(ref)
+        finally: os.dup2(so, 1)
+    return open(ref, 'rb').read()
+# read-sources gets the prelude as the *text* of its file (text-mode reading translates line ends); exec-python gets the str itself
+wants = {'read-sources': reference(open(os.path.join(d, 'a.c'), encoding='utf-8').read(), 'ref1.c'),
+         'exec-python': reference(prelude, 'ref2.c')}
 bad = []
 env = dict(os.environ)
 for label, argv in (('read-sources', ['read-sources', name, os.path.join(d, 'a.cdef'), os.path.join(d, 'a.c')]),
                     ('exec-python', ['exec-python', os.path.join(d, 'b.py')])):
+    want = wants[label]
     out = os.path.join(d, label + '.c')
     r = subprocess.run([sys.executable, '-m', 'cffi.gen_src'] + argv + [out], stdout=subprocess.PIPE, stderr=subprocess.PIPE, env=env)
     if r.returncode != 0 or open(out, 'rb').read() != want:
@@ -240,6 +245,11 @@ def worker(args):
             prel = symstr.SymStr.fresh(ex, 'prelude', lp, ascii_only=False) if lp else ''
             modn = symstr.SymStr.fresh(ex, 'name', ln, ascii_only=False) if ln else ''
             gen = symstr.SymStr.fresh(ex, 'generated', lg, ascii_only=False) if lg else ''
+            # the input files are read in text mode (argparse.FileType('r')): no '\r' reaches the tool, nor the generated text
+            for t_ in (cdef, prel, gen):
+                if not isinstance(t_, str):
+                    for c_ in t_.chars:
+                        ex.add_definition(c_ != 13)
             out = symstr.SymStr.fresh(ex, 'output', 1, ascii_only=True)
             rec = Rec()
             rec.ffis, rec.stdout, rec.opened, rec.written, rec.closed = [], [], [], [], []
